@@ -212,6 +212,8 @@ func finish(cfg vlib.Cfg, rep *vlib.Report) {
 		rep.Floor(rep.Counter("wide_histories/"+be) >= 1, "wide histories (queries over 150-400 keys) on %s: %d", be, rep.Counter("wide_histories/"+be))
 	}
 	rep.Floor(rep.Counter("query_records_max") >= 150, "largest query result: %d records", rep.Counter("query_records_max"))
+	rep.Floor(rep.Counter("query_consume/stall") >= 8, "queries with a stalling consumer: %d", rep.Counter("query_consume/stall"))
+	rep.Floor(rep.Counter("stall_truncated_with_error") >= 2, "stalled queries that the executor gave up on (truncated, with error): %d", rep.Counter("stall_truncated_with_error"))
 	for _, m := range []string{"buffer", "slow", "prompt"} {
 		rep.Floor(rep.Counter("query_consume/"+m) >= 100, "queries consumed in mode %s: %d", m, rep.Counter("query_consume/"+m))
 	}
@@ -294,7 +296,7 @@ func childHist(dir string, cs childSpec, b *vlib.Batch) {
 		case cs.Mode == "big":
 			h = genBigHistory(cs.Seed, cs.Cfg, cs.Big)
 		case cs.Mode == "wide":
-			h = genWideHistory(cs.Seed, cs.Cfg, cs.First+n)
+			h = genWideHistory(cs.Seed, cs.Cfg, cs.First+n, thorough && n == 0 && !cs.Cfg.Shadow && cs.Cfg.Cache == "none")
 		default:
 			h = genHistory(cs.Seed, cs.Cfg, cs.First+n, thorough)
 		}
